@@ -7,6 +7,10 @@ package sqlite
 // ---- token = session id || HMAC(secret, session id) (C18, C08) --------------------------
 //@ func sqlite.DB.sessionID
 //@   params db ctx
+//@   local hash = call:crypto/hmac.New#1
+//@   local id = Slice#1
+//@   local mac1 = Slice#2
+//@   local secret = extract0:call:sqlite.DB.loadOrStoreSecret#1
 //@   props C18 C08 C10(sweep)
 //@   sweep bounds,panic,make,nilmem
 //@   makelimit 1048576
@@ -21,6 +25,7 @@ package sqlite
 // object, so tokens issued by one instance verify on every other instance of the file
 //@ func sqlite.DB.loadOrStoreSecret
 //@   params db ctx
+//@   local err = call:sqlite.DB.insertOrIgnore#1 | call:sqlite.DB.query#1 | extract1:call:crypto/rand.Read#1
 //@   props C18 C08 C10(sweep)
 //@   sweep bounds,panic,make,nilmem
 //@   modifies nothing
@@ -33,51 +38,69 @@ package sqlite
 // ---- accessors: no session, no state (C18, C08) ----------------------------------------------
 //@ func sqlite.DB.TO0SignNonce
 //@   params db ctx
+//@   local err = call:sqlite.DB.query#1
+//@   local ok = extract1:call:sqlite.DB.sessionID#1
 //@   props C18 C08 C10(sweep)
 //@   sweep bounds,panic,make,nilmem
 //@   ensures @session ? err == nil ==> ok
 //@ func sqlite.DB.TO1ProofNonce
 //@   params db ctx
+//@   local err = call:sqlite.DB.query#1
+//@   local ok = extract1:call:sqlite.DB.sessionID#1
 //@   props C18 C08 C10(sweep)
 //@   sweep bounds,panic,make,nilmem
 //@   ensures @session ? err == nil ==> ok
 //@ func sqlite.DB.GUID
 //@   params db ctx
+//@   local err = call:sqlite.DB.query#1
+//@   local ok = extract1:call:sqlite.DB.sessionID#1
 //@   props C18 C08 C10(sweep)
 //@   sweep bounds,panic,make,nilmem
 //@   ensures @session ? err == nil ==> ok
 //@ func sqlite.DB.ProveDeviceNonce
 //@   params db ctx
+//@   local err = call:sqlite.DB.query#1
+//@   local ok = extract1:call:sqlite.DB.sessionID#1
 //@   props C18 C08 C10(sweep)
 //@   sweep bounds,panic,make,nilmem
 //@   ensures @session ? err == nil ==> ok
 //@ func sqlite.DB.SetupDeviceNonce
 //@   params db ctx
+//@   local err = call:sqlite.DB.query#1
+//@   local ok = extract1:call:sqlite.DB.sessionID#1
 //@   props C18 C08 C10(sweep)
 //@   sweep bounds,panic,make,nilmem
 //@   ensures @session ? err == nil ==> ok
 //@ func sqlite.DB.ReplacementGUID
 //@   params db ctx
+//@   local err = call:sqlite.DB.query#1
+//@   local ok = extract1:call:sqlite.DB.sessionID#1
 //@   props C18 C08 C10(sweep)
 //@   sweep bounds,panic,make,nilmem
 //@   ensures @session ? err == nil ==> ok
 //@ func sqlite.DB.ReplacementHmac
 //@   params db ctx
+//@   local err = call:sqlite.DB.query#1
+//@   local ok = extract1:call:sqlite.DB.sessionID#1
 //@   props C18 C08 C10(sweep)
 //@   sweep bounds,panic,make,nilmem
 //@   ensures @session ? err == nil ==> ok
 //@ func sqlite.DB.SetTO0SignNonce
 //@   params db ctx nonce
+//@   local ok = extract1:call:sqlite.DB.sessionID#1
 //@   props C18 C08
 //@   sweep bounds,nilmem
 //@   ensures @session ? err == nil ==> ok
 //@ func sqlite.DB.SetGUID
 //@   params db ctx guid
+//@   local ok = extract1:call:sqlite.DB.sessionID#1
 //@   props C18 C08
 //@   sweep bounds,nilmem
 //@   ensures @session ? err == nil ==> ok
 //@ func sqlite.DB.InvalidateToken
 //@   params db ctx
+//@   local err = extract1:call:database/sql.DB.ExecContext#1
+//@   local ok = extract1:call:sqlite.DB.sessionID#1
 //@   props C18 C08
 //@   sweep bounds,nilmem
 //@   ensures @session ? err == nil ==> ok
@@ -85,6 +108,9 @@ package sqlite
 // ---- expiry of rendezvous blobs (C18, C07) ----------------------------------------------------
 //@ func sqlite.DB.RVBlob
 //@   params db ctx guid
+//@   local blob = UnOp#1 | UnOp#6 | addr:Alloc#2
+//@   local err = call:cbor.Unmarshal#1 | call:cbor.Unmarshal#2 | call:sqlite.DB.query#1
+//@   local exp = addr:Alloc#4
 //@   props C18 C07 C06 C10(sweep)
 //@   sweep bounds,panic,make,nilmem
 //@   callassert Unmarshal#1: @notexpired TimeAfter(lastnow(True()), UnixTime(exp.Int64)) == False()
